@@ -524,17 +524,24 @@ func TestVerifC20Run(t *testing.T) {
 	}
 	c20TmRecursive(r)
 	total := 0
-	procs = append([]int{0}, procs...) // 0 = the deterministic hand-off scenarios (own child process)
+	procs = append([]int{0, -1}, procs...) // 0 = deterministic hand-off scenarios, -1 = stop matrix (own child processes)
+	type job struct{ p, from int }
+	jobs := []job{}
 	for _, p := range procs {
+		jobs = append(jobs, job{p, 0})
+	}
+	restarts := 0
+	for ji := 0; ji < len(jobs); ji++ {
+		p, from := jobs[ji].p, jobs[ji].from
 		if r.wedged.Load() {
 			break
 		}
-		dir := filepath.Join(o.dir, fmt.Sprintf("child_%d", p))
+		dir := filepath.Join(o.dir, fmt.Sprintf("child_%d_%d", p, from))
 		cmd := exec.Command(os.Args[0], "-test.run", "^TestVerifC20RunChild$", "-test.timeout", "20m", "-test.count", "1")
 		cmd.Env = append(os.Environ(), "VERIF_OUT="+dir, fmt.Sprintf("C20_PROCS=%d", p), "C20_DUR="+dur.String(),
-			"GORACE=halt_on_error=0")
+			fmt.Sprintf("C20_STOP_FROM=%d", from), "GORACE=halt_on_error=0")
 		out, err := cmd.CombinedOutput()
-		os.WriteFile(filepath.Join(o.dir, fmt.Sprintf("child_%d.log", p)), out, 0o644)
+		os.WriteFile(filepath.Join(o.dir, fmt.Sprintf("child_%d_%d.log", p, from)), out, 0o644)
 		// 1. the child's own oracle failures and counters
 		if b, e := os.ReadFile(filepath.Join(dir, "oracle.jsonl")); e == nil {
 			for _, line := range strings.Split(string(b), "\n") {
@@ -578,7 +585,18 @@ func TestVerifC20Run(t *testing.T) {
 			if len(txt) > 8000 {
 				txt = txt[len(txt)-8000:]
 			}
-			o.fail(class, map[string]any{"gomaxprocs": p, "seed": o.seed, "output_tail": txt})
+			running := ""
+			if i := strings.LastIndex(string(out), "C20-STOP-CASE "); i >= 0 {
+				running = strings.SplitN(string(out)[i+len("C20-STOP-CASE "):], "\n", 2)[0]
+				// the stop matrix goes on after the case that killed the child
+				if f := strings.Fields(running); len(f) == 2 && restarts < 8 {
+					if n, e := strconv.Atoi(f[0]); e == nil {
+						restarts++
+						jobs = append(jobs, job{p, n + 1})
+					}
+				}
+			}
+			o.fail(class, map[string]any{"gomaxprocs": p, "seed": o.seed, "stop_matrix_case_running": running, "output_tail": txt})
 		}
 	}
 	o.sample(fmt.Sprintf("exploration only: %d calls over GOMAXPROCS %v, %s each, -race; no model answers compared", total, procs, dur))
@@ -641,6 +659,8 @@ func TestVerifC20RunChild(t *testing.T) {
 	dur, _ := time.ParseDuration(os.Getenv("C20_DUR"))
 	if procs == 0 {
 		c20HandoffScenarios(r)
+	} else if procs == -1 {
+		c20StopMatrix(r)
 	} else {
 		r.scenario(procs, dur, o.seed)
 	}
